@@ -261,7 +261,24 @@ def _request_case(case, out):
                     out.fail("request", "request:token_differs", {"got": tok.decode("latin-1"), "expected": ref_token(local).decode()})
         check_encoding(out, req.params)
         if not out.violations:
-            _send_path(out, req, case)
+            if case.get("debug_logging"):
+                # what `yowsup-cli -d` runs with: what is sent does not depend on the logging configuration
+                import logging
+                lg = logging.getLogger("yowsup.common.http.warequest")
+                handler = logging.NullHandler()
+                saved = (lg.level, lg.propagate)
+                lg.addHandler(handler)
+                lg.propagate = False
+                lg.setLevel(logging.DEBUG)
+                out.label("request_sent_with_debug_logging")
+                try:
+                    _send_path(out, req, case)
+                finally:
+                    lg.setLevel(saved[0])
+                    lg.propagate = saved[1]
+                    lg.removeHandler(handler)
+            else:
+                _send_path(out, req, case)
         if not out.violations and case.get("also_plain"):
             cfg2 = Config(phone=phone, cc=cc, id=cfg.id, mcc=case["mcc"], mnc=case["mnc"], sim_mcc=case["mcc"], sim_mnc=case["mnc"],
                           client_static_keypair=cfg.client_static_keypair)
@@ -309,6 +326,7 @@ def _send_path(out, req, case, encrypt=True):
     W.WARequest.ENC_PUBKEY = kp.publicKey
     W.httplib.HTTPSConnection = _FakeConn
     W.httplib.HTTPConnection = _FakeConn
+    params_before = list(req.params)
     try:
         try:
             req.send(encrypt=encrypt)
@@ -325,6 +343,10 @@ def _send_path(out, req, case, encrypt=True):
     if len(_FakeConn.calls) == 2:
         out.label("exists_request_first")
     params_sent = list(req.params)     # (send() may complete the parameters, e.g. with a freshly generated id)
+    if params_sent[:len(params_before)] != params_before:
+        changed = [n for (n, v), (n2, v2) in zip(params_before, params_sent) if (n, v) != (n2, v2)]
+        out.fail("request", "request:parameters_changed_by_sending", {"changed": changed[:5]})
+        return
     host, port, method, path, body, headers = _FakeConn.calls[-1]
     exp_host, exp_port, exp_path = req.getConnectionParameters()
     if (host, port, method) != (exp_host, exp_port, "GET") or not path.startswith(exp_path + "?"):
@@ -404,6 +426,7 @@ def plan(tier):
                         st.text(alphabet="123456789", min_size=1, max_size=3), st.text(alphabet="0123456789", min_size=4, max_size=12),
                         st.text(alphabet="0123456789", min_size=1, max_size=3), st.text(alphabet="0123456789", min_size=1, max_size=3),
                         st.integers(0, 2), idb_st, st.booleans(), extra_st)
+    request = st.tuples(request, st.booleans()).map(lambda t: dict(t[0], **({"debug_logging": True} if t[1] else {})))
     return {
         "shards": 16,
         "enumerations": [],
@@ -415,3 +438,5 @@ def plan(tier):
         "shrink": "hypothesis",
         "budget_s": 120 if quick else 1200,
     }
+
+RULE += (" The request is also sent with the library's logger at DEBUG; the parameters held by the request object are compared with a snapshot taken before sending.")
